@@ -43,6 +43,8 @@ def generate(rng, prop, tier):
               'sentinel': rng.chance(0.3)}
         if kind == 'raw':
             km['flat'] = True
+        if kind == 'string' and rng.chance(0.3):
+            km['enc'], km['strict'] = rng.choice([['latin_1', False], ['latin_1', None], ['utf_8', True], ['cp1252', False]])
         if kind == 'pickle' and arg in ('dill', 'pickle') and rng.chance(0.5):
             km['proto'] = rng.choice([0, 1, 2, 3])
         if not km['flat']:
@@ -55,6 +57,8 @@ def generate(rng, prop, tier):
             continue
         if not M.keymap_ok(km, label, False):
             continue
+        if km.get('enc') and label in ('file-json', 'dir-json', 'file-src', 'dir-src'):
+            continue        # an encoded key is bytes: not a JSON key, not an importable name
         break
     pool = list(POOL_HASHABLE if kind == 'raw' else POOL_ANY)
     if kind == 'pickle' and arg == 'json':
@@ -64,6 +68,8 @@ def generate(rng, prop, tier):
         pool = [p for p in pool]
     rng.shuffle(pool)
     pool = pool[:8]
+    if km.get('enc'):
+        pool = pool[:6] + ['price 5 \u20ac', '\u03b1\u03b2']        # text outside latin-1 / cp1252
     calls = []
     for _ in range(rng.randint(3, 12)):
         c = M.logical_call(rng, fn, [dec(p) for p in pool], True)
